@@ -58,10 +58,12 @@ MANIFEST = {
             "quantileStream_emptyStream_iff), no data -> quantile IndexError in both modes (quantileMem_noData_iff), decreasing "
             "histogram edges -> ValueError in both modes (histogramMem_error_iff). stream=True genome pipelines: chunks -> group-by -> iter_chromosomes "
             "(model of the genome-order walk) -> per-chromosome pile-up / mask / sum / values under chromosome-sorted peaks, "
-            "concatenated, = the whole-genome in-memory result of C10 (per_chromosome, per_chromosome_data_hist, per_chromosome_values; uses C10.cover_local "
+            "concatenated, = the whole-genome in-memory result of C10 (per_chromosome, per_chromosome_data_hist, per_chromosome_windows "
+            "[get_location('start').get_windows(flank= | window_size=), even and odd sizes], per_chromosome_values; uses C10.cover_local "
             "and C10.extract_reversed). Correspondence: all 2^(n-1) chunkings of every small sorted dataset x every computation, "
             "graphs / reductions / multi-root / pipelines, impl vs Lean model vs Lean spec vs pure-Python oracle vs the "
-            "implementation's own in-memory result.",
+            "implementation's own in-memory result; lazily read file chunks (six formats) through the re-chunking helpers are also "
+            "observed by the bytes they write.",
     "note": "mean_chunks_partial: exact integer arithmetic, float rounding is runtime (data exactly representable). histogram is "
             "claimed for explicit edges / range; NumPy's data-dependent default bins are run every check and reported as the known "
             "finding histogram:default-bins. Graph node functions are the element-wise binary ufuncs with scalar constants and the "
@@ -393,6 +395,19 @@ def cases(tier, rng):
                     nodes.append(nd)
                     roots.append(len(nodes) - 1)
                 yield {"op": "graph_many", "nodes": nodes, "roots": roots, "mode": "reduce"}
+    # 2z. chunks that come from the file readers (lazy text buffers, not in-memory tables) through the re-chunking helpers,
+    #      observed by the parsed entries of every resulting chunk AND by what the chunks WRITE in the same format (the
+    #      writer's pass-through of unmodified buffers): raw chunks smaller / larger than n, n no multiple of their length
+    for fmt in FILE_FMTS:
+        for L in ((7, 23, 40) if big else (7, 23)):
+            for minchunk in ((40, 100, 300) if big else (40, 100)):
+                for helper in ("none", "concat", "groupby", "glue"):
+                    if helper == "groupby" and fmt in ("fa", "fq"):
+                        continue
+                    yield {"op": "rechunk_file", "fmt": fmt, "L": L, "minchunk": minchunk, "n": 0, "helper": helper}
+                for n in ((1, 2, 4, 5, 10, 11) if big else (2, 5, 10)):
+                    for helper in ("chunk_lines", "chunk_entries"):
+                        yield {"op": "rechunk_file", "fmt": fmt, "L": L, "minchunk": minchunk, "n": n, "helper": helper}
     # 3. stream=True genome pipelines evaluated with compute
     P = 2500 if big else 250
     for _ in range(P):
@@ -417,7 +432,8 @@ def cases(tier, rng):
         kind = rng.choice(["pileup_hist", "pileup_sum", "mask_sum", "under", "under_mean", "merged", "pileup_data",
                            "under_stranded", "under_stranded", "under_stranded_mean",
                            "track_ufunc_sum", "under_max", "merge_map", "bedgraph_sum", "extended", "track_bool_index",
-                           "under_sum", "under_rowsum", "under_colmean", "under_colmean", "uncovered"])
+                           "under_sum", "under_rowsum", "under_colmean", "under_colmean", "uncovered",
+                           "windows", "windows", "windows_values", "windows_values"])
         if kind in ("under", "under_mean", "under_stranded", "under_max", "under_sum", "under_rowsum", "under_colmean") and not peaks:
             peaks = [[0, 0, sizes[0]]]
         if kind == "under_stranded_mean":            # windows of one common size, as `track[windows].mean(axis=0)` needs
@@ -442,6 +458,9 @@ def cases(tier, rng):
         if kind == "extended":                # stranded entries: 1 = '+', 0 = '-'
             rows = [r + [rng.choice([1, 0])] for r in rows]
         extra = {}
+        if kind in ("windows", "windows_values"):
+            # both keywords of get_windows: flank=k (2k + 1 wide) and window_size=w with EVEN and odd w
+            extra["wkw"] = ["flank", rng.randrange(0, 4)] if rng.random() < 0.35 else ["window_size", rng.randrange(1, 9)]
         if kind in IGNORABLE and rng.random() < 0.4:
             # contigs the genome lists but its filter function ignores (names with '_'), with non-zero sizes, anywhere in the
             # genome order; some entries lie on them (dropped by both modes)
@@ -456,6 +475,13 @@ def cases(tier, rng):
         mask = rng.getrandbits(len(rows) - 1) if len(rows) > 1 else 0
         yield dict({"op": "pipeline", "kind": kind, "sizes": sizes, "chunks": _cut(rows, mask), "peaks": sorted(peaks),
                     "bins": rng.randrange(1, 5)}, **extra)
+    # 3b. every value of both get_windows keywords (flank=0..3, window_size=1..8: even and odd) on a fixed small genome with
+    #     positions at and near both chromosome ends, a few chunkings each
+    wrows = [[0, 0, 3], [0, 4, 9], [0, 11, 12], [1, 1, 2], [1, 8, 9], [2, 3, 7]]
+    for wkw in [["flank", k] for k in range(4)] + [["window_size", w] for w in range(1, 9)]:
+        for mask in (0, 0b11111, 0b01010):
+            for kind in ("windows", "windows_values"):
+                yield {"op": "pipeline", "kind": kind, "sizes": [12, 9, 7], "chunks": _cut(wrows, mask), "peaks": [], "bins": 1, "wkw": wkw}
 
 
 IGNORABLE = {"pileup_hist", "pileup_sum", "mask_sum", "pileup_data", "under", "track_ufunc_sum", "under_max", "uncovered"}
@@ -475,7 +501,33 @@ def _chrom_name(ci):
     return "chr%d" % (ci + 1) if ci < 100 else "chrUn_%d" % (ci - 100)
 
 
+FILE_FMTS = ["bed", "narrowPeak", "gff", "vcf", "fa", "fq"]
+
+
+def _file_lines(fmt, L):
+    """L records of a small canonical file of the format; record i is on chromosome 1 + i // 7 and carries i in a field"""
+    out = []
+    for i in range(L):
+        ch = "chr%d" % (1 + i // 7)
+        out.append({"bed": f"{ch}\t{10 * i}\t{10 * i + 5 + i % 3}\n",
+                    "narrowPeak": f"{ch}\t{10 * i}\t{10 * i + 5}\tp{i}\t{i}\t.\t1.5\t2.5\t3.5\t{i % 5}\n",
+                    "gff": f"{ch}\tsrc\tgene\t{10 * i + 1}\t{10 * i + 9}\t.\t+\t.\tID=g{i}\n",
+                    "vcf": f"{ch}\t{10 * i + 1}\t.\tA\tC\t.\t.\t.\n",
+                    "fa": f">s{i}\n{'ACGT'[i % 4] * (3 + i % 4)}\n",
+                    "fq": f"@s{i}\n{'ACGT'[i % 4] * (3 + i % 4)}\n+\n{'I' * (3 + i % 4)}\n"}[fmt])
+    return out
+
+
+def _file_ids(fmt, chunk):
+    if fmt in ("fa", "fq"):
+        return [int(str(x)[1:]) for x in chunk.name.tolist()]
+    col = chunk.position if fmt == "vcf" else chunk.start
+    return [int(x) // 10 for x in np.asarray(col).tolist()]
+
+
 def nontrivial(c):
+    if c["op"] == "rechunk_file":
+        return c["L"] > 7
     ch = c.get("chunks")
     if ch is None:
         ch = c["nodes"][0]["chunks"]
@@ -716,6 +768,13 @@ def _pipeline(m, c, streamed):
             if int(cg.compute(node2)) != 9:
                 raise RuntimeError("second streamed genome disturbed")
             return r_
+    if kind in ("windows", "windows_values"):
+        w = gi.get_location("start").get_windows(**{c["wkw"][0]: c["wkw"][1]})
+        if kind == "windows":
+            w = w.compute() if streamed else w
+            return [[ch, int(s_), int(e_)] for ch, s_, e_ in zip(_chroms(w.chromosome), w.start.tolist(), w.stop.tolist())]
+        r = fin(gi.get_pileup()[w] if _vmode(c) % 2 else gi.get_pileup().extract_intervals(w))
+        return [[int(x) for x in np.asarray(row.to_array() if hasattr(row, "to_array") else row).ravel()] for row in r]
     if kind == "track_ufunc_sum":
         return int(fin((gi.get_pileup() * 2 + 1).sum()))
     if kind == "uncovered":                  # positions no entry covers: sensitive to the length of the genome-wide array
@@ -941,6 +1000,48 @@ def impl(c):
             return {"v": [[int(x) for x in r] for r in res], "mem": [[int(x) for x in r] for r in (allv + 1, allv * 2, allv * 3 + 1)]}
         if op == "pipeline":
             return {"v": _pipeline(m, c, True), "mem": _pipeline(m, c, False)}
+        if op == "rechunk_file":
+            import os, tempfile
+            if "tmpdir" not in _CACHE:
+                import atexit, shutil
+                _CACHE["tmpdir"] = tempfile.mkdtemp(prefix="c11files_")
+                atexit.register(shutil.rmtree, _CACHE["tmpdir"], True)
+            fmt = c["fmt"]
+            text = "".join(_file_lines(fmt, c["L"]))
+            src = os.path.join(_CACHE["tmpdir"], "in." + fmt)
+            out = os.path.join(_CACHE["tmpdir"], "out." + fmt)
+            with open(src, "w") as f:
+                f.write(text)
+            st = bnp.open(src).read_chunks(min_chunk_size=c["minchunk"])      # lazily read chunks (the default)
+            h = c["helper"]
+            if h == "none":
+                chunks = list(st)
+            elif h == "chunk_lines":
+                chunks = list(m["chunk_lines"](st, c["n"]))
+            elif h == "chunk_entries":
+                chunks = list(m["chunk_entries"](st, c["n"]))
+            elif h == "concat":
+                chunks = [np.concatenate(list(st))]
+            elif h == "groupby":
+                chunks = [g for _, g in bnp.groupby(st, "chromosome")]
+            else:                                   # glue: a whole raw chunk to a slice of the next one, and the rest
+                raw = list(st)
+                chunks = []
+                for a, b in zip(raw[0::2], raw[1::2]):
+                    k = (len(b) + 1) // 2
+                    chunks += [np.concatenate([a, b[:k]]), b[k:]]
+                if len(raw) % 2:
+                    chunks.append(raw[-1])
+            ids = [_file_ids(fmt, ch) for ch in chunks]
+            with bnp.open(out, "w") as f:
+                for ch in chunks:
+                    f.write(ch)
+            with open(out) as f:
+                written = f.read()
+            per = len(text.splitlines()) // c["L"]
+            wl = written.splitlines()
+            return {"v": {"chunks": ids, "written": "same" if written == text else
+                          {"lines": len(wl), "first_lines_of_records": [x[:24] for x in wl[::per]][:40]}}}
     except Exception as e:  # noqa
         return _err(e)
     raise ValueError(op)
@@ -960,6 +1061,14 @@ def _hist(data, edges):
             if edges[i] <= x and (x < edges[i + 1] or (i == k - 1 and x == edges[i + 1])):
                 out[i] += 1
     return out
+
+
+def _windows(c):
+    """get_location('start').get_windows(flank=k | window_size=w): k before and k + 1 from the position on, resp. w // 2
+    before and w // 2 + w % 2 from it on (even and odd w), clipped to the chromosome"""
+    how, v = c["wkw"]
+    l, r = (v, v + 1) if how == "flank" else (v // 2, v // 2 + v % 2)
+    return [[ci, max(0, s - l), min(c["sizes"][ci], s + r)] for ci, s, e in [r_[:3] for r_ in _flat(c["chunks"])]]
 
 
 def _dense_pileup(c):
@@ -1042,6 +1151,17 @@ def oracle(c):
         if n < 1:
             return {"err": "value"}
         return [data[i:i + n] for i in range(0, len(data), n)]
+    if op == "rechunk_file":
+        ids, n, h = list(range(c["L"])), c["n"], c["helper"]
+        if h in ("chunk_lines", "chunk_entries"):
+            chunks = [ids[i:i + n] for i in range(0, len(ids), n)]
+        elif h == "concat":
+            chunks = [ids]
+        elif h == "groupby":
+            chunks = [ids[i:i + 7] for i in range(0, len(ids), 7)]
+        else:
+            chunks = None                       # how the reader cuts is its own business: only the concatenation is specified
+        return {"chunks": chunks, "flat": ids, "written": "same"}
     if op == "graph":
         vals = []
         for nd in c["nodes"]:
@@ -1141,6 +1261,9 @@ def oracle(c):
             return [_fl(Fraction(sum(col), len(rows_))) for col in zip(*rows_)]
         if kind == "under":
             return [dense[ci][s:e] for ci, s, e in c["peaks"]]
+        if kind in ("windows", "windows_values"):
+            ws = _windows(c)
+            return ws if kind == "windows" else [dense[ci][a:b] for ci, a, b in ws]
         if kind == "under_mean":
             return [_fl(Fraction(sum(dense[ci][s:e]), e - s)) for ci, s, e in c["peaks"]]
         if kind == "merged":
@@ -1230,7 +1353,24 @@ def _as_value(c, exp):
     return exp
 
 
+def _agree_file(got, exp):
+    if not isinstance(got, dict) or "v" not in got or got["v"].get("written") != "same":
+        return False
+    chunks = got["v"]["chunks"]
+    if exp["chunks"] is not None and chunks != exp["chunks"]:
+        return False
+    return [x for ch in chunks for x in ch] == exp["flat"]
+
+
+def agree_spec(c, s, exp):
+    if c["op"] == "rechunk_file":
+        return core.canon(s) == core.canon(exp["chunks"])
+    return core.canon(s) == core.canon(exp)
+
+
 def agree(c, got, exp):
+    if c["op"] == "rechunk_file":
+        return _agree_file(got, exp)
     if isinstance(exp, dict) and "err" in exp:
         return core.canon(got) == core.canon(exp)
     if not isinstance(got, dict) or "v" not in got:
@@ -1247,12 +1387,14 @@ def agree(c, got, exp):
 
 
 def agree_model(c, got, m):
+    if c["op"] == "rechunk_file":
+        return isinstance(got, dict) and "v" in got and core.canon(got["v"]["chunks"]) == core.canon(m)
     if not isinstance(got, dict) or "v" not in got:
         return core.canon(got) == core.canon(m)
     return core.canon(got["v"]) == core.canon(_as_value(c, m))
 
 
-MODEL_PIPELINES = {"pileup_data", "pileup_sum", "mask_sum", "pileup_hist", "under", "under_stranded"}
+MODEL_PIPELINES = {"pileup_data", "pileup_sum", "mask_sum", "pileup_hist", "under", "under_stranded", "windows", "windows_values"}
 
 
 def model_request(c):
@@ -1260,10 +1402,20 @@ def model_request(c):
         if c["kind"] not in MODEL_PIPELINES:
             return None      # values under intervals / merged: implementation vs dense oracle only
         chunks = [[r for r in ch if r[0] < 100] for ch in c["chunks"]]      # the included genome is what the model describes
+        if c["kind"] == "windows":
+            return dict({"op": "pipeline", "kind": "windows", "sizes": c["sizes"], "chunks": chunks, "bins": c["bins"], "peaks": []},
+                        **({"wflank": c["wkw"][1]} if c["wkw"][0] == "flank" else {"wsize": c["wkw"][1]}))
+        if c["kind"] == "windows_values":      # the values under the windows the model computes for the 'windows' kind
+            return {"op": "pipeline", "kind": "under", "sizes": c["sizes"], "chunks": chunks, "bins": c["bins"], "peaks": _windows(c)}
         return {"op": "pipeline", "kind": c["kind"], "sizes": c["sizes"], "chunks": chunks, "bins": c["bins"],
                 "peaks": [p[:3] + [1 if p[3] == 1 else 0] if len(p) == 4 else p for p in c["peaks"]]}
     if c["op"] == "groupby":
         return {"op": "groupby", "fast": c["fast"], "chunks": c["chunks"]}
+    if c["op"] == "rechunk_file":
+        if c["helper"] not in ("chunk_lines", "chunk_entries"):
+            return None
+        # the result does not depend on how the reader cut the file (rechunk_chunking_independent): one chunk of all records
+        return {"op": c["helper"], "chunks": [list(range(c["L"]))], "n": c["n"]}
     return c
 
 
@@ -1271,6 +1423,13 @@ def finding_key(c, got, exp):
     op = c["op"]
     if op == "histogram_default":
         return "histogram:default-bins"
+    if op == "rechunk_file":
+        if isinstance(got, dict) and "err" in got:
+            return f"rechunk_file:{c['helper']}-raises-{got['err']}"
+        if isinstance(got, dict) and got["v"].get("written") != "same" and \
+                [x for ch in got["v"]["chunks"] for x in ch] == list(range(c["L"])):
+            return f"rechunk_file:{c['helper']}-written-bytes-differ-entries-right"
+        return f"rechunk_file:{c['helper']}-wrong-entries"
     if op == "count_kmers1":
         return "count_kmers:k=1"
     if op == "count_kmers_big":
